@@ -89,6 +89,7 @@ func ConnectClient(ctx context.Context, endpoint Endpoint, config ClientConnConf
 		logger:        GetOrCreateNopLogger(config.Logger),
 	}
 	c.codec.Store(codecBox{codecs.CustomRawCodec})
+	verifTrace("table", c.pending, 0, endpoint.Key())
 	var err error
 	c.conn, err = Connect(ctx, endpoint, c)
 	if err != nil {
@@ -435,6 +436,7 @@ func (c *ClientConn) adaptPrepareFrame(cached *frame.RawFrame) (*frame.RawFrame,
 func (c *ClientConn) Closing(err error) {
 	c.closingMu.Lock()
 	c.closing = true // No request can be added to pending once this is set
+	verifTrace("closing", c.pending, 0, nil)
 	c.closingMu.Unlock()
 	// Notify without holding the lock: a notified request may be retried on another connection that is closing at the
 	// same time, and two connections holding their own lock while waiting for the other's would deadlock.
